@@ -453,7 +453,7 @@ class Undetermined(Exception):
     pass
 
 
-def ieval(ft, t, env, assume=None):
+def ieval(ft, t, env, assume=None, _nested=False):
     """Value of an integer/bool term when every atom is given by `env` ({stripped term: int}).
     Small-set abstract evaluation of a MIR-derived formula over a finite domain; raises
     Undetermined when an atom is missing.  Rust semantics: truncating Div/Rem, wrapping casts;
@@ -470,8 +470,8 @@ def ieval(ft, t, env, assume=None):
         return v
     if tag == "bin":
         op = t[1]
-        a = ieval(ft, t[2], env, assume)
-        b = ieval(ft, t[3], env, assume)
+        a = ieval(ft, t[2], env, assume, _nested)
+        b = ieval(ft, t[3], env, assume, _nested)
         if op in ("Add", "AddUnchecked", "AddWithOverflow"):
             return a + b
         if op in ("Sub", "SubUnchecked", "SubWithOverflow"):
@@ -499,22 +499,22 @@ def ieval(ft, t, env, assume=None):
             return a ^ b
         raise Undetermined(op)
     if tag == "un":
-        a = ieval(ft, t[2], env, assume)
+        a = ieval(ft, t[2], env, assume, _nested)
         if t[1] == "Neg":
             return -a
         if t[1] == "Not":
             return int(not a) if a in (0, 1) else ~a
         raise Undetermined(t[1])
     if tag == "cast" and t[1] == "IntToInt":
-        return wrap(ieval(ft, t[2], env, assume), t[3])
+        return wrap(ieval(ft, t[2], env, assume, _nested), t[3])
     if tag == "phi":
         r = resolve_under(ft, t, assume)
-        if r is None:
+        if r is None and not _nested:
             # try to fold controlling comparisons by evaluation
             r = _resolve_by_eval(ft, t, env, assume)
         if r is None:
             raise Undetermined("phi")
-        return ieval(ft, r, env, assume)
+        return ieval(ft, r, env, assume, _nested)
     raise Undetermined(tag)
 
 
@@ -533,7 +533,7 @@ def _resolve_by_eval(ft, phi, env, assume):
         try:
             if d[0] == "phi" and d == phi:
                 continue
-            extra[k] = ieval(ft, d, env, extra) if d[0] != "phi" else None
+            extra[k] = ieval(ft, d, env, extra, True) if d[0] != "phi" else None
             if extra[k] is None:
                 del extra[k]
             else:
